@@ -198,6 +198,76 @@ Section Nat.
   Lemma forallb_truthy_rel : forall st ps vs, vrels d (hp st) ps vs -> forallb (truthy d st) vs = forallb qtruthy ps.
   Proof. intros st ps vs H. induction H as [|p v ps vs Hp _ IH]; [reflexivity|]. cbn [forallb]. now rewrite (truthy_rel d st p v Hp), IH. Qed.
 
+  Lemma vcmp_rel : forall f st o pa pb va vb r, vr st pa va -> vr st pb vb -> qcmp o pa pb = Ok r -> vcmp d (S f) st o va vb = Ok r.
+  Proof.
+    intros f st o pa pb va vb r Ha Hb H. destruct pa, pb; try discriminate; cbn [vrel] in Ha, Hb; subst va vb; cbn [qcmp] in H; rewrite <- H;
+      destruct d; reflexivity.
+  Qed.
+
+  Definition less_rel (st : state) (qless : qval -> qval -> res bool) (less : value -> value -> res bool) : Prop :=
+    forall pa pb va vb b, vr st pa va -> vr st pb vb -> qless pa pb = Ok b -> less va vb = Ok b.
+
+  Lemma minmax_rel : forall st qless less, less_rel st qless less -> forall pr r, vrels d (hp st) pr r -> forall pcur cur p, vr st pcur cur ->
+    qminmax qless pr pcur = Ok p ->
+    exists v, (fix go (r : list value) (cur : value) : res value :=
+                 match r with
+                 | [] => Ok cur
+                 | y :: r' => rbind (less y cur) (fun b => go r' (if b then y else cur))
+                 end) r cur = Ok v /\ vr st p v.
+  Proof.
+    intros st qless less Hl pr r Hr. induction Hr as [|py y pr r Hy _ IH]; intros pcur cur p Hc H; cbn [qminmax] in H.
+    - injection H as <-. now exists cur.
+    - destruct (qless py pcur) as [b| |] eqn:Eb; try discriminate. cbn [rbind] in H.
+      rewrite (Hl py pcur y cur b Hy Hc Eb). cbn [rbind]. apply (IH (if b then py else pcur) (if b then y else cur) p); [now destruct b|exact H].
+  Qed.
+
+  Lemma ins_left_rel : forall st qless less, less_rel st qless less -> forall px x, vr st px x -> forall pacc acc pr, vrels d (hp st) pacc acc ->
+    qins_left qless px pacc = Ok pr -> exists r, ins_left less x acc = Ok r /\ vrels d (hp st) pr r.
+  Proof.
+    intros st qless less Hl px x Hx pacc acc pr Ha. revert pr. induction Ha as [|py y pacc acc Hy Ha IH]; intros pr H; cbn [qins_left ins_left] in *.
+    - injection H as <-. exists [x]. split; [reflexivity|]. constructor; [exact Hx|constructor].
+    - destruct (qless px py) as [b| |] eqn:Eb; try discriminate. cbn [rbind] in H. rewrite (Hl px py x y b Hx Hy Eb). cbn [rbind].
+      destruct b.
+      + destruct (qins_left qless px pacc) as [pr'| |] eqn:Er; try discriminate. cbn [rbind] in H. injection H as <-.
+        destruct (IH pr' eq_refl) as (r' & E & Hr'). rewrite E. cbn [rbind]. exists (y :: r'). split; [reflexivity|now constructor].
+      + injection H as <-. exists (x :: y :: acc). split; [reflexivity|]. constructor; [exact Hx|now constructor].
+  Qed.
+
+  Lemma insertion_sort_rel : forall st qless less, less_rel st qless less -> forall pl l pr, vrels d (hp st) pl l ->
+    qinsertion_sort qless pl = Ok pr -> exists r, insertion_sort less l = Ok r /\ vrels d (hp st) pr r.
+  Proof.
+    intros st qless less Hl pl l pr Hv H. unfold qinsertion_sort in H. unfold insertion_sort.
+    assert (Hgo : forall pl l, vrels d (hp st) pl l -> forall pacc acc pr0, vrels d (hp st) pacc acc ->
+              (fix go (l acc : list qval) : res (list qval) :=
+                 match l with [] => Ok acc | x :: rest => rbind (qins_left qless x acc) (fun acc' => go rest acc') end) pl pacc = Ok pr0 ->
+              exists r0, (fix go (l acc : list value) : res (list value) :=
+                            match l with [] => Ok acc | x :: rest => rbind (ins_left less x acc) (fun acc' => go rest acc') end) l acc = Ok r0
+                         /\ vrels d (hp st) pr0 r0).
+    { intros pl0 l0 Hv0. induction Hv0 as [|px x pl0 l0 Hx _ IH]; intros pacc acc pr0 Ha H0.
+      - injection H0 as <-. now exists acc.
+      - destruct (qins_left qless px pacc) as [pacc'| |] eqn:Ei; try discriminate. cbn [rbind] in H0.
+        destruct (ins_left_rel st qless less Hl px x Hx pacc acc pacc' Ha Ei) as (acc' & E & Ha'). rewrite E. cbn [rbind].
+        now apply (IH pacc' acc' pr0). }
+    match type of H with (rbind ?m _) = _ => destruct m as [pr0| |] eqn:Eg end; try discriminate. cbn [rbind] in H. injection H as <-.
+    destruct (Hgo pl l Hv [] [] pr0 (Forall2_nil _) Eg) as (r0 & E & Hr). rewrite E. cbn [rbind]. exists (rev r0). split; [reflexivity|].
+    now apply Forall2_rev.
+  Qed.
+
+  Lemma kind_rel : forall h p v, vrel d h p v ->
+    match v with VInt _ => true | _ => false end = q_is_int p /\ match v with VStr _ => true | _ => false end = q_is_str p.
+  Proof.
+    intros h p v H. destruct p; cbn [vrel] in H; try (subst v; split; reflexivity).
+    - destruct H as (sl & cells & -> & _). split; reflexivity.
+    - destruct H as (i & es & -> & _). split; reflexivity.
+  Qed.
+  Lemma all_kind_rel : forall h ps vs, vrels d h ps vs ->
+    forallb (fun v => match v with VInt _ => true | _ => false end) vs = forallb q_is_int ps /\
+    forallb (fun v => match v with VStr _ => true | _ => false end) vs = forallb q_is_str ps.
+  Proof.
+    intros h ps vs H. induction H as [|p v ps vs Hp _ [IH1 IH2]]; [split; reflexivity|]. cbn [forallb].
+    destruct (kind_rel h p v Hp) as [K1 K2]. now rewrite K1, K2, IH1, IH2.
+  Qed.
+
   Lemma native_sim : forall f n pvals vals st p, vrels d (hp st) pvals vals -> qnative f n pvals = Ok p -> sim st (native d f n vals st) p.
   Proof.
     intros f n pvals vals st p Hv H. unfold qnative in H. unfold native.
@@ -228,8 +298,25 @@ Section Nat.
     { destruct pa; try discriminate. injection H as <-. destruct (vrel_list_inv d st l va H0) as (sl & -> & Hc & _).
       cbn [strict_list rbind]. destruct (new_list_vrel d st (rev l) (rev (list_items d st sl)) (Forall2_rev _ _ _ Hc)) as (v & st' & E & Hx & Hv').
       rewrite E. now exists v, st'. }
-    destruct (str_eqb n (s "sorted")); [discriminate|].
-    destruct (str_eqb n (s "min") || str_eqb n (s "max")); [discriminate|].
+    pose proof (nth_vrels d (hp st) pvals vals 1%nat Hv) as H1. pose proof (nth_vrels d (hp st) pvals vals 2%nat Hv) as H2.
+    set (p1 := nth 1%nat pvals QNone) in *. set (v1 := nth 1%nat vals VNone) in *.
+    set (p2 := nth 2%nat pvals QNone) in *. set (v2 := nth 2%nat vals VNone) in *.
+    assert (Hless : forall o, less_rel st (fun x y => match f with O => OutOfFuel | S _ => qcmp o x y end) (fun x y => vcmp d f st o x y)).
+    { intros o pa0 pb0 va0 vb0 b Ha Hb Hq. destruct f as [|f']; [discriminate|]. now apply (vcmp_rel f' st o pa0 pb0). }
+    destruct (str_eqb n (s "sorted")).
+    { destruct pa; try discriminate. destruct (vrel_list_inv d st l va H0) as (sl & -> & Hc & _). cbn [strict_list rbind].
+      destruct p1; try discriminate. cbn [vrel] in H1. rewrite H1. destruct p2; try discriminate. cbn [vrel] in H2. rewrite H2.
+      destruct (all_kind_rel (hp st) l _ Hc) as [K1 K2]. rewrite K1, K2.
+      destruct (negb (forallb q_is_int l || forallb q_is_str l)); [discriminate|]. rewrite Bool.andb_false_r.
+      match type of H with (rbind ?m _) = _ => destruct m as [pr| |] eqn:Es end; try discriminate. cbn [rbind] in H. injection H as <-.
+      destruct (insertion_sort_rel st _ _ (Hless (if b then C16_Syntax.Gt else C16_Syntax.Lt)) l _ pr Hc Es) as (r & E & Hr). rewrite E. cbn [rbind].
+      destruct (new_list_vrel d st pr r Hr) as (v & st' & En & Hx & Hv'). rewrite En. now exists v, st'. }
+    destruct (str_eqb n (s "min") || str_eqb n (s "max")).
+    { destruct pa; try discriminate. destruct (vrel_list_inv d st l va H0) as (sl & -> & Hc & _). cbn [strict_list rbind].
+      destruct p1; try discriminate. cbn [vrel] in H1. rewrite H1.
+      destruct Hc as [|px x pr r Hx Hr]; [discriminate|].
+      destruct (minmax_rel st _ _ (Hless (if str_eqb n (s "min") then C16_Syntax.Lt else C16_Syntax.Gt)) pr r Hr px x p Hx H) as (v & E & Hv').
+      cbv zeta. rewrite E. cbn [rbind]. eapply ok_here; [reflexivity|exact Hv']. }
     discriminate.
   Qed.
 
